@@ -74,7 +74,7 @@ for n in (0, 1, 2, 3, 5):
         if tname == 'text':
             pre.append(" and ".join('%s < 128' % p for p in ps) or 'True')
         if tname == 'int':
-            pre.append(" and ".join('48 <= %s <= 57' % p for p in ps) or 'True')
+            pre.append(" and ".join(('48 <= %s <= 57' if k == 0 else '48 <= %s <= 50') % p for k, p in enumerate(ps)) or 'True')
         if tname == 'int_nondigit':
             pre.append('(32 <= p0 < 48 or 57 < p0 <= 70)' + (' and 48 <= p1 <= 57' if n > 1 else ''))
         define(globals(), 'C20', 'stream_size%d_%s' % (n, tname), params,
@@ -174,7 +174,7 @@ def do_roundtrip_container(shape, s0, s1, s2):
 for shape in SHAPES:
     define(globals(), 'C20', 'roundtrip_%s' % shape, ['s0', 's1', 's2'], "return do_roundtrip_container(%r, s0, s1, s2)" % shape,
            ['0 <= s0 <= 7 and 0 <= s1 <= 7 and 0 <= s2 <= 7'],
-           tier='quick' if shape in ('list2', 'list_in_dict') else 'thorough', timeout=2400, path_timeout=60,
+           tier='quick' if shape in ('list2',) else 'thorough', timeout=2400, path_timeout=60,
            drives=['cpppo.server.tnetstrings.dump', 'cpppo.server.tnetstrings.dump_list', 'cpppo.server.tnetstrings.dump_dict', 'cpppo.server.tnetstrings.parse',
                    'cpppo.server.tnetstrings.parse_list', 'cpppo.server.tnetstrings.parse_dict', 'cpppo.server.tnetstrings.parse_payload'],
            bounds='container shape %s with every leaf chosen (solver-enumerated selector) among %r; equal value AND equal types (repr) and '
